@@ -210,6 +210,10 @@ func runWire(e *Env) {
 	}
 	cfg.ProtoVersion = proto
 	cfg.NumConns = 1
+	if tp.Chance(1, 3) {
+		// more than one connection per node: each one negotiates for itself
+		cfg.NumConns = 2 + tp.Next(2)
+	}
 	cfg.Timeout = 2 * time.Second
 	cfg.WriteCoalesceWaitTime = coalesce
 	cfg.Keyspace = keyspace
